@@ -85,6 +85,7 @@ void charge_sleep(int64_t ns);          // current task sleeps ns of virtual tim
 uint64_t event(uint8_t kind, uint8_t sub, int64_t a, int64_t b);   // returns seq
 uint64_t seq_now();
 void set_cur_op(int op);                // per-task "current plan op" (for attribution)
+extern volatile int *cur_op_mirror;
 int cur_op();
 int cur_op_of(int task);
 int64_t stalled_ns_of(int task);        // total injected stall charged to a task so far
